@@ -5,6 +5,7 @@ the labels of the other arguments of the call it is handed to (for iterator
 adaptors: the receiver, i.e. the items). Bodies are processed parents first.
 """
 from . import shape
+from .facts import callee
 
 
 def bodies_with_labels(facts, f, seed, call_labels=None, param_labels=None):
@@ -12,6 +13,7 @@ def bodies_with_labels(facts, f, seed, call_labels=None, param_labels=None):
     closure_caps = {}
     closure_items = {}
     out = []
+    names = {g.name for g in bodies}
 
     def note(g, L):
         defs = {}
@@ -31,6 +33,13 @@ def bodies_with_labels(facts, f, seed, call_labels=None, param_labels=None):
                     if src in defs:
                         defs[s[1][0]] = defs[src]
         for b, t in g.calls():
+            c = callee(t)
+            if "{closure#" in c.split("::")[-1] and c in names:
+                # direct call of a closure (possibly a captured one): its parameters receive the call's arguments
+                items = set()
+                for o2 in t[2][1:]:
+                    items |= L.operand_labels(o2)
+                closure_items.setdefault(c, set()).update(items)
             for i, o in enumerate(t[2]):
                 if o[0] in ("c", "m") and len(o[1]) == 1 and o[1][0] in defs:
                     items = set()
@@ -39,24 +48,37 @@ def bodies_with_labels(facts, f, seed, call_labels=None, param_labels=None):
                             items |= L.operand_labels(o2)
                     closure_items.setdefault(defs[o[1][0]], set()).update(items)
 
-    L0 = shape.Labels(f, None, seed, call_labels=call_labels, param_labels=param_labels)
-    note(f, L0)
-    out.append((f, L0))
-    for g in bodies:
-        caps = closure_caps.get(g.name, [])
-        items = closure_items.get(g.name, set())
+    def one_pass():
+        res = []
+        L0 = shape.Labels(f, None, seed, call_labels=call_labels, param_labels=param_labels)
+        note(f, L0)
+        res.append((f, L0))
+        for g in bodies:
+            caps = closure_caps.get(g.name, [])
+            items = closure_items.get(g.name, set())
 
-        def cseed(p, caps=caps):
-            o = set(seed(p) or []) if seed else set()
-            if p[0] == 1:
-                for e in p[1:]:
-                    if isinstance(e, list) and e[0] == "f" and str(e[3]).startswith("closure:"):
-                        if e[1] < len(caps):
-                            o |= caps[e[1]]
-                        break
-            return o
-        L = shape.Labels(g, None, cseed, call_labels=call_labels,
-                         param_labels={i: set(items) for i in range(2, g.nargs + 1)} if items else None)
-        note(g, L)
-        out.append((g, L))
+            def cseed(p, caps=caps):
+                o = set(seed(p) or []) if seed else set()
+                if p[0] == 1:
+                    for e in p[1:]:
+                        if isinstance(e, list) and e[0] == "f" and str(e[3]).startswith("closure:"):
+                            if e[1] < len(caps):
+                                o |= caps[e[1]]
+                            break
+                return o
+            L = shape.Labels(g, None, cseed, call_labels=call_labels,
+                             param_labels={i: set(items) for i in range(2, g.nargs + 1)} if items else None)
+            note(g, L)
+            res.append((g, L))
+        return res
+
+    # closures may be called (and capture) across siblings: iterate until the capture / argument labels are stable
+    prev = None
+    out = []
+    for _ in range(5):
+        out = one_pass()
+        snap = (sorted((k, tuple(sorted(map(str, sorted(x)) for x in v)) if False else str(v)) for k, v in closure_caps.items()), sorted((k, tuple(sorted(v))) for k, v in closure_items.items()))
+        if snap == prev:
+            break
+        prev = snap
     return out
